@@ -186,6 +186,25 @@ async fn attack_lookups<TC: Configuration>(cx: &mut Cx, r: &mut Rng, sv: &Server
             let x = sv.nl(l, false, *v).await;
             for (k, np) in anchored_nonmembership::<TC>(&sv.azks, &sv.st, &sv.nodes, &x).await.into_iter().enumerate() {
                 cands.push((format!("version {} of {} anchor {}", v, nv, k), sv.lookup_for(l, *v, val, *ep, np.clone()).await, root, t.epoch));
+                // the same anchor with invented children that are not prefixes of the label (the anchor node itself
+                // and its path are genuine)
+                {
+                    let mut np3 = np.clone();
+                    let pl = np.longest_prefix;
+                    let mut b0 = bits_of(&pl);
+                    let mut b1 = b0.clone();
+                    b0.push(false);
+                    b1.push(true);
+                    // continue away from the label's own next bits
+                    let xb = bits_of(&x);
+                    while b0.len() < 256 { let i = b0.len(); b0.push(!xb[i]); }
+                    while b1.len() < 256 { let i = b1.len(); b1.push(!xb[i]); }
+                    np3.longest_prefix_children = [
+                        akd::AzksElement { label: from_bits(&b0), value: akd::AzksValue([0x31; 32]) },
+                        akd::AzksElement { label: from_bits(&b1), value: akd::AzksValue([0x32; 32]) },
+                    ];
+                    cands.push((format!("version {} of {} anchor {} with invented children", v, nv, k), sv.lookup_for(l, *v, val, *ep, np3).await, root, t.epoch));
+                }
                 // the same anchor with the claimed freshness label cut short: the genuine VRF bytes with a
                 // label_len below 256 name a string that really is absent
                 for len in [255u32, 200, np.longest_prefix.label_len + 1] {
@@ -207,6 +226,24 @@ async fn attack_lookups<TC: Configuration>(cx: &mut Cx, r: &mut Rng, sv: &Server
         p.value = AkdValue(vec![0xEE, 0x01]);
         p.commitment_nonce = sv.nonce(&sv.nl(l, true, nv).await, nv, &[0xEE, 0x01]);
         cands.push(("wrong value with its own nonce".into(), p, root, t.epoch));
+        // bytes moved across the value / nonce boundary
+        if !nval.is_empty() {
+            let mut p = honest.clone();
+            let k = nval.len() - 1;
+            p.value = AkdValue(nval[..k].to_vec());
+            let mut n2 = nval[k..].to_vec();
+            n2.extend_from_slice(&honest.commitment_nonce);
+            p.commitment_nonce = n2;
+            cands.push(("last value byte moved into the nonce".into(), p, root, t.epoch));
+        }
+        {
+            let mut p = honest.clone();
+            let mut v2 = nval.clone();
+            v2.push(honest.commitment_nonce[0]);
+            p.value = AkdValue(v2);
+            p.commitment_nonce = honest.commitment_nonce[1..].to_vec();
+            cands.push(("first nonce byte moved into the value".into(), p, root, t.epoch));
+        }
         let mut p = honest.clone();
         p.epoch = nep + 1;
         cands.push(("epoch + 1".into(), p, root, t.epoch));
@@ -345,6 +382,25 @@ async fn attack_histories<TC: Configuration>(cx: &mut Cx, r: &mut Rng, sv: &Serv
         let el = sv.nl(l, true, p.update_proofs[k].version).await;
         p.update_proofs[k].commitment_nonce = sv.nonce(&el, p.update_proofs[k].version, &[0xEE, 0x02]);
         cands.push(("an entry's value replaced, nonce recomputed".into(), p, HistoryParams::Complete, false));
+        // bytes moved across the value / nonce boundary of an entry
+        {
+            let mut p = honest.clone();
+            let u = &mut p.update_proofs[k];
+            if !u.value.0.is_empty() {
+                let cut = u.value.0.len() - 1;
+                let mut n2 = u.value.0[cut..].to_vec();
+                n2.extend_from_slice(&u.commitment_nonce);
+                u.value = AkdValue(u.value.0[..cut].to_vec());
+                u.commitment_nonce = n2;
+                cands.push(("an entry's last value byte moved into the nonce".into(), p, HistoryParams::Complete, false));
+            }
+            let mut p = honest.clone();
+            let u = &mut p.update_proofs[k];
+            let b = u.commitment_nonce[0];
+            u.value.0.push(b);
+            u.commitment_nonce.remove(0);
+            cands.push(("an entry's first nonce byte moved into the value".into(), p, HistoryParams::Complete, false));
+        }
         // tombstone substitution
         for allow in [false, true] {
             let mut p = honest.clone();
